@@ -9,7 +9,7 @@ from rv import oracles as O, refmodels as R, gen
 from rv.harness import max_n, mod, exact
 
 LEVEL = "exploration"
-RULE = ("per generated instance (values, numbins) the exhaustive optimum of every objective is computed once (O1), then the "
+RULE = ("bounded-exhaustive: every multiset of 1..5 (thorough 6) items over 0..4 x 1..4 bins x every exact algorithm (30% of the budget; completion reported as grid_exhaustive_complete_shards); then per generated instance (values, numbins) the exhaustive optimum of every objective is computed once (O1), then the "
         "instance is solved by complete greedy under all 16 switch masks x {maxmin,minmax,diff}, by ckk/snp/rnp (diff), by dp "
         "(2 of 5 objectives) and, for values <= 200, by ilp (1 of 5 objectives); non-trivial = n > numbins >= 2 and LPT's value "
         "differs from the optimum of that objective; distinct on (algorithm, config, sorted values, numbins); every 10th (thorough: 4th) instance is of class manysmall: "
@@ -24,7 +24,7 @@ CLASSES = ("small", "small", "ties", "equal", "perfect", "nearperfect", "powers"
 def plan(tier, seed):
     n = 16 if tier == "quick" else 64
     b = 55 if tier == "quick" else 160
-    return [{"seed": seed * 1000 + i, "shard": i, "budget_s": b, "max_instances": 100000, "watchdog_s": b * 5 + 120} for i in range(n)]
+    return [{"seed": seed * 1000 + i, "shard": i, "nshards": n, "budget_s": b, "max_instances": 100000, "watchdog_s": b * 5 + 120} for i in range(n)]
 
 
 def draw_instance(rng):
@@ -169,7 +169,7 @@ def run_certificate_pair(k, values, rng, ctx):
     ctx.counters["certificate_pairs"] += 1
 
 
-def run_instance(cls, k, values, rng, ctx, algs=None):
+def run_instance(cls, k, values, rng, ctx, algs=None, full_grid=False):
     n = len(values)
     vectors = O.sum_vectors(values, k)
     optcache = {}
@@ -179,7 +179,7 @@ def run_instance(cls, k, values, rng, ctx, algs=None):
     todo = []
     if n <= max_n("cg", k, big):
         grid = [(name, mask) for name in ("maxmin", "minmax", "diff") for mask in range(16)]
-        if rng.random() >= 0.3:          # full 48-configuration grid on 30% of the instances, 8 sampled configurations otherwise
+        if not full_grid and rng.random() >= 0.3:          # full 48-configuration grid on 30% of the instances, 8 sampled configurations otherwise
             grid = rng.sample(grid, 8)
         for name, mask in grid:
             todo.append(dict(base, alg="cg", objective=[name, None], cg_mask=mask))
@@ -204,6 +204,19 @@ def run_shard(spec, rng, ctx):
     end = C.budget(spec)
     i = 0
     try:
+        # bounded-exhaustive small scope first: EVERY multiset of 1..5 items (thorough: 6) over the values 0..4 x 1..4 bins, solved by every exact algorithm
+        # (complete greedy: all 16 masks x 3 objectives). Sharded deterministically; together the shards enumerate the scope exactly once.
+        grid_end = C.now() + 0.3 * float(spec.get("budget_s", 60))
+        maxlen = 6 if spec.get("tier") == "thorough" else 5
+        complete = True
+        for k in (1, 2, 3, 4):
+            for ms in C.sharded(C.multisets(range(0, 5), maxlen), spec):
+                if C.now() > grid_end:
+                    complete = False
+                    break
+                run_instance("grid_exhaustive", k, list(ms), rng, ctx, full_grid=True)
+                ctx.counters["grid_exhaustive_instances"] += 1
+        ctx.counters["grid_exhaustive_complete_shards"] += int(complete)
         # 40% of the budget: snp vs complete greedy beyond the exhaustive oracle's size (pruning defects of snp show at >= 4 bins and >= 9-10 items)
         pair_end = C.now() + 0.4 * float(spec.get("budget_s", 60))
         while C.now() < pair_end:
